@@ -12,7 +12,7 @@ private, so the enumeration is complete by construction):
     validate_type_matches_variable_name on the same name/value; the ValueArray variant is chosen
     by `$`; the validation truth table is right
 """
-from lib import (sfx, get_fn, callers_of, strip_expr, strip_refs, show, aggregates, expr_calls, expr_params,
+from lib import (sfx, get_fn, callers_of, on_ok_arm, strip_expr, strip_refs, show, aggregates, expr_calls, expr_params,
                  region_aggregates, exclusive_region, bool_switch_true_target)
 
 LEVEL = "proof"
@@ -378,7 +378,7 @@ def typing_rules(ck, F, E):
                 iv = strip_expr(vs.expr(i.args[2]))
                 ik = strip_expr(vs.expr(i.args[1]))
                 name_ok = "arg1" in show(vn) and ik == ("param", 1)
-                if vv == ("param", 2) and iv == ("param", 2) and name_ok and on_continue_arm(vs, v, i.bb):
+                if vv == ("param", 2) and iv == ("param", 2) and name_ok and on_ok_arm(vs, v, i.bb):
                     ok = True
         ck.require(ok, "C16:TYPE:Variables::set-validated", "suffix typing",
                    "the insert is reachable only from the Ok arm of validate_type_matches_variable_name(value, name) "
